@@ -55,6 +55,54 @@ CHECKS = {
         "DESIGN.md section 5 (C06)",
         "E2 memory model + emulator lock-step",
     ),
+    "C07": (
+        "exhaustive enumeration of all 65536 port addresses x read/write per device configuration with a decode oracle; property-based testing (proptest) of floating-bus reads",
+        "exploration",
+        "All 65536 addresses are read and written by the emulated CPU on six device configurations plus generated I/O-extender claim predicates; routing is judged where the property's decode predicates select exactly one device (or none), every access also checks that no other device changed state and that the extender log holds exactly the claimed accesses. Unclaimed reads at generated beam positions must be 0xFF outside the fetch windows and otherwise 0xFF or a display/attribute byte of the line being fetched in the displayed bank.",
+        "Trusted: decode predicates from the property text (conservative reading of the mouse decode), state observation through border_color(), paging hook and unclaimed AY helper ports. EAR polarity belongs to C11.",
+        "DESIGN.md section 5 (C07)",
+        "E2 emulator lock-step",
+    ),
+    "C08": (
+        "property-based testing (proptest) with an independent screen decoder; metamorphic over delivery paths",
+        "exploration",
+        "Generated screen contents are delivered through CPU writes via 0x4000 and 0xC000 (bank 5/7), execute_poke, SCR, SNA, SZX (stored/zlib) and fast tape load, on both machines and both 128K screen banks, over 1..40 idle frames; every delivered canvas must equal the independent standard decode with a flash phase that toggles in runs of exactly 16 frames; single bytes written clearly before/after the beam must appear in the current/next frame.",
+        "Trusted: decoder written from the property formula; harness FrameBuffer; the harness' SNA/SZX/TAP writers.",
+        "DESIGN.md section 5 (C08)",
+        "E3 formats + emulator",
+    ),
+    "C09": (
+        "property-based differential testing (proptest): generated OUT programs timestamped by the reference machine vs. every border pixel",
+        "exploration",
+        "Looping programs of delays and OUTs to even ports run on emulator and reference machine; after every completed frame each of the 27648 border pixels must show a colour that was current within 8 T-states of its beam time, border_color() must equal the last written low bits, frames without writes show the current colour, and a loaded snapshot's border is reported and shown.",
+        REF + "Border raster geometry from the property text.",
+        "DESIGN.md section 5 (C09)",
+        "E2 reference machine + emulator",
+    ),
+    "C10": (
+        "property-based testing (proptest) of TAP images x LD-BYTES request sequences against a ROM-listing model of LD-BYTES",
+        "exploration",
+        "The ROM routine at 0x0556 is called from a RAM stub with generated A/carry/IX/DE against generated TAP images (buffer-boundary lengths, wrong checksums, truncated tails), several requests in sequence and past the end of the tape; carry, IX, DE and all RAM (outside system variables and stack) are compared with an LD-BYTES model written from the ROM disassembly; past the end the routine must not succeed and CPU state must stay intact.",
+        "Trusted: LD-BYTES model (cross-checked against the real ROM running in real time by C11).",
+        "DESIGN.md section 5 (C10)",
+        "E4 tape models + emulator",
+    ),
+    "C11": (
+        "property-based testing (proptest): pulse generator under generated time-step schedules vs. a synthesised nominal waveform; real ROM loader in real time vs. LD-BYTES model",
+        "exploration",
+        "Component level: every interval between EAR edges, for any partition of time into 1..16 T steps, must lie in [nominal, nominal+32] with exact count and order (pilot 8063 / >= 3223, sync 667+735, two pulses per bit MSB first, ~1 s pause). System level: the real ROM LD-BYTES loads the playing tape and must return the carry, IX, DE and memory the block's bytes imply.",
+        "Trusted: waveform synthesiser and LD-BYTES model written from the format/ROM documentation; Tap re-export hook.",
+        "DESIGN.md section 5 (C11)",
+        "E4 tape models + emulator",
+    ),
+    "C12": (
+        "property-based testing (proptest) of play/stop/rewind/advance command histories against a deck model with a waveform-prefix oracle",
+        "exploration",
+        "Generated command histories drive the pulse generator; no edge may occur while stopped, and the edge stream over playing time, cut at rewinds and complete passes, must always be a prefix of the nominal waveform of the whole tape (clean pilot, every pulse in tolerance), so blocks appear once and in order; a replay after the end needs a play command.",
+        "Trusted: deck model and nominal waveform; Tap re-export hook. Short data-flag blocks only.",
+        "DESIGN.md section 5 (C12)",
+        "E4 tape models",
+    ),
     "C17": (
         "property-based testing (proptest) of input event histories against a set model, read back through emulated IN instructions",
         "exploration",
